@@ -350,6 +350,17 @@ func (r *Run) requireEachSuccessPath(id, why string, f *ssa.Function, ctx core.C
 		}
 		n++
 		pf := pathFacts(ff, p)
+		if ei >= 0 {
+			// a tail-returned error that is nil on this (success) path means that call succeeded
+			t := ff.TB.Of(ret.Results[ei])
+			if t.Op == "err" && t.Args[0].Op == "call" {
+				f := core.Fact{Kind: "ok", A: t.Args[0]}
+				pf[f.Key()] = f
+			} else if t.Op == "call" {
+				f := core.Fact{Kind: "ok", A: t}
+				pf[f.Key()] = f
+			}
+		}
 		ok := false
 		for _, a := range alts {
 			if _, m := core.MatchAll(pf, a, nil); m {
